@@ -256,7 +256,9 @@ class TrialBackend:
                     Status.stopped,
                 ]:
                     # metrics obtained after a stopping decision from a scheduler are hidden.
+                    # They count as seen, so that they are not returned once the trial is resumed.
                     new_metrics = []
+                    self._last_metric_seen_index[trial_id] = len(trial_result.metrics)
                 else:
                     # we return the list of all new metrics, which may be empty if no new metrics were generated.
                     position_last_seen = self._last_metric_seen_index[trial_id]
